@@ -33,7 +33,11 @@ def _store(cap):
     from pathlib import Path
 
     if _base is None:
+        import atexit
+        import shutil
+
         d = tempfile.mkdtemp(prefix="c17-", dir="/verif/.scratch")
+        atexit.register(shutil.rmtree, d, True)
         _base = certs.CertStore.from_store(Path(d), "mitmproxy", 2048)
     b = _base
     s = certs.CertStore(b.default_privatekey, b.default_ca, None, b.default_crl, b.dhparams)
